@@ -321,10 +321,6 @@ def oracle(log):
             life_strike, life_accepted, prev_stop = False, [], None
         if "stop" in o:
             prev_stop = (o["stop"], life_strike, list(life_accepted))
-        for kn in o.get("nonces", ()):
-            if kn in nonces:
-                return f"AEAD nonce {kn[1].hex()} used twice under the sender key", "aead-nonce-reuse"
-            nonces.add(kn)
         if "issued" in o:
             n = o["issued"]
             if n in issued_all:
@@ -336,6 +332,10 @@ def oracle(log):
             if o["lifetime"] in last_in_life and last_in_life[o["lifetime"]] >= n:
                 return f"sequence numbers not increasing within a lifetime ({last_in_life[o['lifetime']]} then {n})", "not-increasing"
             last_in_life[o["lifetime"]] = n
+        for kn in o.get("nonces", ()):
+            if kn in nonces:
+                return f"AEAD nonce {kn[1].hex()} used twice under the sender key", "aead-nonce-reuse"
+            nonces.add(kn)
         if res == "x" and (o.get("mem_changed") or o.get("effects")):
             return "refusing at exhaustion changed the context state", "exhaustion-state-changed"
         if ev == "R" and res in ("As", "Ae"):
@@ -546,7 +546,7 @@ def run(env, rep):
     cases = [c for _, c in load_corpus("C13")]
     cases += boundary_cases(env)
     cases.append(long_case(env))
-    nrand = env.scale(700, 20000)
+    nrand = env.scale(700, 8000)
     for i in range(nrand):
         cases.append(random_case(env.rng, malformed=(i % 4 == 3)))
 
@@ -574,12 +574,17 @@ def run(env, rep):
         verdict, key = oracle(log)
         if verdict:
             rep.oracle_fail(public(case) if len(case["events"]) <= 400 else case, verdict, key=key)
-    compare(env, rep, pub, lines, impl, what="FilesystemSecurityContext")
-    need = ["res=issued", "res=x", "res=As", "res=Ae", "res=E", "res=R", "res=P", "res=d", "res=k",
-            "res=s", "res=z", "res=-", "res=a"]
-    missing = [k for k in need if not rep.hist.get(k)]
+    outs = compare(env, rep, pub, lines, impl, what="FilesystemSecurityContext")
+    # branch coverage of the MODEL (so that a defect in the implementation cannot turn into a
+    # harness error): every kind of result must have been produced
+    for line in outs:
+        for t in line.split():
+            t = t.split("@")[0]
+            rep.count("model=" + ("issued" if t[0] == "i" else "m" if t[0] == "m" else t))
+    need = ["issued", "x", "As", "Ae", "E", "R", "P", "d", "k", "s", "z", "-", "a", "l", "m"]
+    missing = [k for k in need if not rep.hist.get("model=" + k)]
     if missing:
-        raise HarnessError("generator did not reach outcomes: " + ",".join(missing))
+        raise HarnessError("generator did not reach model outcomes: " + ",".join(missing))
     if rep.hist.get("kind=malformed", 0) * 2 > len(cases):
         raise HarnessError("malformed stream exceeds 50 % of the cases")
 
